@@ -158,6 +158,15 @@ func generate(p *Program, property string, onlyFunc string) *runResult {
 			}
 			x := p.verify(fn, fc)
 			rep := funcReport{Key: k, Tags: p.tags, Paths: x.paths, Errors: x.errs}
+			if len(x.errs) > 0 {
+				// the function is not verified (it left the subset, or a contract clause no longer evaluates): its
+				// other obligations may fail merely for lack of the skipped clause, so none of them is a refutation
+				// by itself (decided by replay, like paths through abstracted externals), and no vacuity claim is made
+				for _, ob := range x.obs {
+					ob.Abstracted = append(ob.Abstracted, "function not verified: "+x.errs[0])
+				}
+				x.smokes = nil
+			}
 			for _, ob := range x.obs {
 				if property == "" || hasProp(ob.Props, property) {
 					rr.obs = append(rr.obs, ob)
